@@ -65,7 +65,9 @@ func genC14(t *rapid.T) interface{} {
 		case "lits":
 			n := rapid.IntRange(0, 4).Draw(t, "n")
 			for i := 0; i < n; i++ {
-				in += rapid.SampledFrom([]string{"1", "2.5", `"s\n"`, "'c'", "1h2m", "true", "nil", "foo", "==", "abc", "'", "\"", "9223372036854775808"}).Draw(t, "frag") + " "
+				// (a literal may be followed by whitespace in one input and by nothing in another)
+				in += rapid.SampledFrom([]string{"1", "2.5", `"s\n"`, "'c'", "1h2m", "true", "nil", "foo", "foo", "foo", "==", "abc", "'", "\"", "9223372036854775808"}).Draw(t, "frag") +
+					rapid.SampledFrom([]string{" ", " ", "", "  ", "\n"}).Draw(t, "fragsep")
 			}
 		default:
 			in = GenInput(t, c.G, o)
@@ -197,11 +199,21 @@ func runOne(p parsley.Parser, in string, keywords ...string) string {
 }
 
 func runOneNamed(p parsley.Parser, name, in string, keywords ...string) string {
-	f := text.NewFile(name, []byte(in))
+	s, _ := runOneTree(p, name, in, keywords...)
+	return s
+}
+
+// runOneTree also hands back the tree of the run (parsed with a second context), so that it can be
+// read again after other runs have finished.
+func runOneTree(p parsley.Parser, name, in string, keywords ...string) (string, parsley.Node) {
+	f := newFileOwned(name, []byte(in))
 	ctx := parsley.NewContext(parsley.NewFileSet(f), text.NewReader(f))
 	ctx.RegisterKeywords(keywords...)
 	v, err := parsley.Evaluate(ctx, p)
-	return fmt.Sprintf("%v / %v / calls=%d", v, err, ctx.CallCount())
+	ctx2 := parsley.NewContext(parsley.NewFileSet(f), text.NewReader(f))
+	ctx2.RegisterKeywords(keywords...)
+	tree, _ := parsley.Parse(ctx2, p)
+	return fmt.Sprintf("%v / %v / calls=%d", v, err, ctx.CallCount()), tree
 }
 
 func checkC14(ci interface{}, st *Stats) error {
@@ -243,6 +255,8 @@ func checkC14(ci interface{}, st *Stats) error {
 		in    string
 		got   string
 		fresh bool
+		tree  parsley.Node // the tree of the run and its rendering when the run returned
+		repr  string
 	}
 	var wg sync.WaitGroup
 	start := make(chan struct{})
@@ -266,7 +280,8 @@ func checkC14(ci interface{}, st *Stats) error {
 			<-start
 			for round := 0; round < 3; round++ {
 				for ji, in := range jobs {
-					results[g] = append(results[g], obs{g, in, runOne(p, in, kw(g)...), false})
+					got, tree := runOneTree(p, "f", in, kw(g)...)
+					results[g] = append(results[g], obs{g, in, got, false, tree, renderFull(tree, 1)})
 					if c.Construct {
 						switch (g + round) % 4 {
 						case 0:
@@ -279,7 +294,8 @@ func checkC14(ci interface{}, st *Stats) error {
 							runOne(combinator.Sentence(combinator.Many(text.Trim(re)).Bind(concatInterpAny())), "ab cd")
 						default:
 							q := c14Parser(c)
-							results[g] = append(results[g], obs{g, in, runOne(q, in, kw(g)...), true})
+							got, tree := runOneTree(q, "f", in, kw(g)...)
+							results[g] = append(results[g], obs{g, in, got, true, tree, renderFull(tree, 1)})
 						}
 					}
 				}
@@ -291,6 +307,14 @@ func checkC14(ci interface{}, st *Stats) error {
 	for _, e := range errs {
 		if e != nil {
 			return e
+		}
+	}
+	// the runs share no mutable state: a tree handed to one run reads the same after all runs ended
+	for g := range results {
+		for _, o := range results[g] {
+			if now := renderFull(o.tree, 1); now != o.repr {
+				return fmt.Errorf("goroutine %d, input %q: the tree of this run was changed by another run:\n was %s\n now %s", g, o.in, o.repr, now)
+			}
 		}
 	}
 	failingG := 0
